@@ -1,0 +1,62 @@
+//! Verification hooks (compiled only with `--cfg may_verif`), see `may_queue::verif`.
+pub use may_queue::verif::*;
+
+use crate::coroutine_impl::CoroutineImpl;
+
+/// identity of the coroutine behind a `CoroutineImpl` (stable while it lives)
+#[inline]
+pub fn co_vid(co: &CoroutineImpl) -> usize {
+    crate::coroutine_impl::co_verif_id(co)
+}
+
+/// identity of the running coroutine, 0 in thread context
+#[inline]
+pub fn cur_vid() -> usize {
+    match crate::local::get_co_local_data() {
+        Some(local) => unsafe { local.as_ref() }.get_co().verif_id(),
+        None => 0,
+    }
+}
+
+/// index of the worker thread we are on, `usize::MAX` if not a worker
+#[inline]
+pub fn worker_id() -> usize {
+    crate::scheduler::WORKER_ID.get()
+}
+
+/// result of a park as a small integer: 0 Ok, 1 Timeout, 2 Canceled
+#[inline]
+pub fn park_code(r: &Result<(), crate::park::ParkError>) -> usize {
+    match r {
+        Ok(()) => 0,
+        Err(crate::park::ParkError::Timeout) => 1,
+        Err(crate::park::ParkError::Canceled) => 2,
+    }
+}
+
+/// `std::thread` look-alike for the timer thread: with a virtual clock installed a
+/// timed park becomes a short poll, so that only the controller moves time.
+pub mod vthread {
+    pub use std::thread::Thread;
+    use std::time::Duration;
+
+    pub fn current() -> Thread {
+        super::note("timer.thread", 0, 0);
+        std::thread::current()
+    }
+
+    pub fn park() {
+        super::note("timer.park", 0, 0);
+        std::thread::park();
+        super::note("timer.unpark", 0, 0);
+    }
+
+    pub fn park_timeout(dur: Duration) {
+        if super::now_ns().is_some() {
+            super::note("timer.idle", dur.as_nanos() as usize, 0);
+            std::thread::park_timeout(Duration::from_micros(100));
+        } else {
+            std::thread::park_timeout(dur)
+        }
+    }
+}
